@@ -40,6 +40,9 @@ def run(module, cfg, workers=16, timeout=1800, env=None, extra=(), simulate=None
     parse errors / crashes so that a broken spec can never look like a verdict."""
     meta = tempfile.mkdtemp(prefix='tlcmeta_')
     cmd = ['java', '-XX:+UseParallelGC', '-Xmx8g', '-Xss256m']
+    if workers == 1:
+        # trace validation: many such JVMs may run side by side; keep each one to a few threads
+        cmd += ['-XX:ParallelGCThreads=2', '-XX:CICompilerCount=2']
     if dfs:
         cmd.append('-Dtlc2.tool.queue.IStateQueue=StateDeque')
     cmd += list(java_opts)
